@@ -644,7 +644,10 @@ def keeps_syntax_tree(old_source: str, new_source: str) -> bool:
         return True  # Not python to begin with, so there is no syntax tree to keep
 
     new_root = _parse_for_comparison(new_source)
-    return new_root is not None and ast.dump(old_root) == ast.dump(new_root)
+    try:
+        return new_root is not None and ast.dump(old_root) == ast.dump(new_root)
+    except RecursionError:
+        return False  # Too deeply nested to tell
 
 
 @functools.lru_cache(maxsize=100_000)
